@@ -471,3 +471,11 @@ Proof.
     + right. cbn [olist]. rewrite app_nil_r. auto.
   - destruct T as [T1 T2]. rewrite T1. cbn [olist]. rewrite app_nil_r. auto.
 Qed.
+
+(** runs are invariant under inserting persist / restore steps *)
+Lemma prun_restore_invariant ops : prun_r ops = prun (fills_of_ops ops).
+Proof.
+  unfold prun_r, prun. generalize (@None position, @nil exited).
+  induction ops as [|o ops IH]; intros s; [reflexivity|].
+  destruct o as [f|]; cbn [fold_left pstep_r fills_of_ops flat_map app]; apply IH.
+Qed.
